@@ -221,9 +221,12 @@ func (w *World) IO(kind string, off, length int64, faults map[*Fake]Outcome) {
 			A[r.Address] = r.Mode
 		}
 	}
+	// who may serve a read is decided by the reported mode (RW), not by the replicator's internal reader list
 	readers := map[string]bool{}
-	for _, a := range pre.Readers {
-		readers[a] = true
+	for _, r := range pre.Replicas {
+		if r.Mode == types.RW {
+			readers[r.Address] = true
+		}
 	}
 	fs := map[string]string{}
 	logLen := map[*Fake]int{}
